@@ -70,6 +70,7 @@ ASSUMPTIONS = [
     "uncommit without a tree leaves the tree alone (and out of date); generated only as the last operation of a run; the tags of merged revisions are then dropped too (no pending merge keeps them reachable) - follows remove_tags(parents=[new tip])",
     "for `local=True` on a bound branch only the local branch and its tags are judged (BasicTags.delete_tag also deletes the tag in the master although the master keeps the revision: reported as an observation, the property text does not cover it)",
     "tree parents after commit / merge / update are read from the real tree (they feed the graph model; C09 / C23 judge those operations); parents after uncommit are predicted",
+    "ghost merge parents: a pending merge id absent from every repository is set through set_parent_ids right before some commits; it is an ordinary head for the parent filter, has no ancestry and carries no tags; commit records it and uncommit must bring it back in place",
     "mtime is compared at nanosecond resolution through os.lstat; uncommit must not rewrite any file",
     "failed uncommit: the property text only speaks of successful uncommits; judged is the order the code documents and C23 states for commits (master first, then local, then tree, then tags): whatever was not reached must be unchanged, in particular a tree must never be rewritten while its branch tip stays; a master that moved while the local write failed is accepted; faults after the tip writes (tree / tag steps) are not injected (the dirstate has no seam)",
     "a process-wide pre_change_branch_tip hook is installed in warm(); it only acts when the running simulation arms it",
@@ -197,6 +198,8 @@ def generate(rng, tier):
     while len(ops) < total:
         kind_op = rng.choice(pool)
         if kind_op in ("commit", "lcommit"):
+            if rng.random() < 0.12:
+                ops.append(["ghost", {"n": fresh()}])
             commit(local=kind_op == "lcommit")
             depth += 1
         elif kind_op == "merge":
@@ -208,6 +211,8 @@ def generate(rng, tier):
             for s in who:
                 ops.append(["merge", {"who": s}])
             if rng.random() < 0.85:
+                if rng.random() < 0.3:
+                    ops.append(["ghost", {"n": fresh()}])
                 commit()
                 depth += 1
                 if rng.random() < 0.5:
@@ -618,6 +623,20 @@ def _execute(sim, plan):
                 m.parents = [rev2]
                 verify(json.dumps(op) + " (again)")
             continue
+        if kind_op == "ghost":
+            # a pending merge the repository does not have (ghost): commit records it verbatim
+            if m.tip == NULL or m.parents[:1] != [m.tip]:
+                continue
+            gid = "ghost-%d" % op[1]["n"]
+            try:
+                tree("X").set_parent_ids([x.encode() for x in m.parents] + [gid.encode()])
+            except errors.BzrError as e:
+                sim.probe("ghost_refused_" + type(e).__name__)
+                continue
+            observe_parents()
+            if gid in m.parents:
+                sim.probe("ghost_pending")
+            continue
         if kind_op == "side":
             a = op[1]
             s = a["who"]
@@ -638,6 +657,11 @@ def _execute(sim, plan):
         if kind_op == "merge":
             s = op[1]["who"]
             if m.side[s] == NULL or m.tip == NULL or m.parents[:1] != [m.tip]:
+                continue
+            if any(r not in m.g.parents for r in m.parents):
+                # merging into a tree that has a ghost among its pending merges crashes in the
+                # dirstate (TypeError in _generate_inventory): not this property's subject
+                sim.event("skip", i, "ghost-pending")
                 continue
             try:
                 tree("X").merge_from_branch(storesim.open_branch("sim+file://" + roots[s]), force=True)
@@ -660,6 +684,7 @@ def _execute(sim, plan):
                 recent = sorted(m.g.ancestry(m.tip) - (m.g.ancestry(lh[2]) if len(lh) > 2 else set()) - set(lh))
                 merged = recent or sorted(m.g.ancestry(m.tip) - set(lh))
                 revs = merged or revs
+            revs = [r for r in revs if r in m.g.parents]  # no ghosts
             if not revs:
                 continue
             rev = revs[a["pick"] % len(revs)]
@@ -694,7 +719,7 @@ def _execute(sim, plan):
             verify(json.dumps(op))
             continue
         if kind_op == "update":
-            if not murl or m.master == NULL:
+            if not murl or m.master == NULL or any(r not in m.g.parents for r in m.parents):
                 # (an empty master: update cannot follow it - C23's finding - and, when the tree
                 # is based on a re-recorded merge, crashes in set_root_id(None))
                 continue
@@ -721,6 +746,11 @@ def _execute(sim, plan):
             if a.get("default_revno"):
                 k = 1
             p = m.predict_uncommit(a, k)
+            if not p["refusal"] and p["tip"] == NULL and p["raw"] and p["raw"][0] not in m.g.parents:
+                # the whole history goes and a ghost would become the tree's basis: refused by
+                # set_parent_ids after the tip moved (GhostRevisionUnusableHere); not generated
+                sim.event("skip", i, "ghost-would-lead")
+                continue
             site = "uncommit:%s%s" % (kind, ":local" if a.get("local") else "")
             before = snapshot()
             if p["refusal"]:
@@ -786,6 +816,7 @@ WARM_OPS = [
     ["side", {"n": 4, "who": "Z", "sync": True}],
     ["merge", {"who": "Y"}],
     ["merge", {"who": "Z"}],
+    ["ghost", {"n": 20}],
     ["tag", {"name": "t5", "pick": 2, "where": "any"}],
     ["tag", {"name": "t6", "pick": 0, "where": "merged"}],
     ["commit", {"n": 7, "undo": True}],
